@@ -270,7 +270,14 @@ func (ka *ecdheKeyAgreementGM) generateClientKeyExchange(config *Config, clientH
 	} else {
 		curve, ok := curveForCurveID(ka.curveid)
 		if !ok {
-			panic("internal error")
+			// the curve id comes from the peer's ServerKeyExchange
+			return nil, nil, errors.New("tls: server selected unsupported curve")
+		}
+		// processServerKeyExchange validated the point on the SM2 curve only;
+		// crypto/elliptic panics when asked to multiply a point that is not
+		// on the curve it is given.
+		if ka.x == nil || !curve.IsOnCurve(ka.x, ka.y) {
+			return nil, nil, errors.New("tls: server's ECDH public value is not on the selected curve")
 		}
 		priv, mx, my, err := elliptic.GenerateKey(curve, config.rand())
 		if err != nil {
